@@ -353,3 +353,50 @@ Proof.
   destruct (parse_encoded_value dbg (sc_be c) enc _ r) as [[offset r1]| | |]; cbn [bind]; try reflexivity.
   destruct (negb (CfiSpec.ind_of enc =? 0)); reflexivity.
 Qed.
+
+(* ------------------------------------------------------------------ statements scoped to the adapter's domain *)
+(* every FDE of the section decodes DW_CFA_set_loc operands as plain addresses (no 'R', or no set_loc reached) *)
+Definition section_setloc_plain (dbg : bool) (c : scfg) (aa : bool) (fds : list CfiRd.fde) : Prop :=
+  forall fd, In fd fds -> setloc_plain dbg (sc_be c) aa fd = true.
+
+Lemma uwi_spec_scoped_lem : forall dbg cp c aa sec cx a items fds,
+  asz_ok (sc_asz c) -> cap_full (max_stack cp) 0 = false ->
+  entries_all dbg c sec = Ok (items, None) ->
+  parsed_fdes dbg c sec items = Some fds ->
+  section_setloc_plain dbg c aa fds ->
+  match find (fun f => covers f a) fds with
+  | None => fst (unwind_info_for_address dbg cp c aa sec cx a) = Err ENoUnwindInfoForAddress
+  | Some fd =>
+      let f := fde_in_of (sc_be c) aa fd in
+      uwi_result_spec a (fst (R.spec_of dbg cp f)) (snd (R.spec_of dbg cp f))
+                      (fst (unwind_info_for_address dbg cp c aa sec cx a))
+  end.
+Proof. intros dbg cp c aa sec cx a items fds H1 H2 H3 H4 _. apply (uwi_spec_lem dbg cp c aa sec cx a items fds); assumption. Qed.
+
+(* ------------------------------------------------------------------ instances for Properties/C05.v *)
+(* .eh_frame at 0x1000, CIE "zR" with absolute udata4 FDE addresses and initial instructions
+   def_cfa r7+8; offset r16 at cfa-8. Two OVERLAPPING FDEs: [0x2000,0x2040) with three rows and
+   [0x2008,0x206c) with one. *)
+Definition ex_uw_cfg : scfg := mkcfg true false 8 (mksb (Some 4096) None None).
+Definition ex_wires (l : list wire) : list byte := concat (map (enc_wire false 8) l).
+Definition ex_uw_es : list CfiSpec.entry :=
+  [ CfiSpec.ECie (CfiSpec.mkcie_rec false 1 true [CfiSpec.AR 3] 8 1 (-8) 16 (ex_wires [WDefCfa 7 8; WOffset0 16 1]));
+    CfiSpec.EFde (CfiSpec.mkfde_rec false 0%nat 8192 64 0 []
+                    (ex_wires [WAdvanceLoc0 4; WDefCfaOffset 16; WAdvanceLoc0 8; WOffset0 3 2]));
+    CfiSpec.EFde (CfiSpec.mkfde_rec false 0%nat 8200 100 0 [] (ex_wires [WDefCfaOffset 99])) ].
+Definition ex_uw_sec : list byte := CfiSpec.enc_section (sp_of ex_uw_cfg) ex_uw_es.
+Definition ex_uw_fds : list CfiRd.fde :=
+  Eval vm_compute in
+    match entries_all true ex_uw_cfg ex_uw_sec with
+    | Ok (items, _) => match parsed_fdes true ex_uw_cfg ex_uw_sec items with Some l => l | None => [] end
+    | _ => []
+    end.
+Definition ex_heap : caps := {| max_stack := Some 4%nat; max_rules := Some 192%nat |}.
+Definition ex_ctx : ctx := {| c_stack := []; c_initial_rule := None; c_init := true |}.
+
+(* an FDE whose first instruction is DW_CFA_set_loc under pcrel|sdata4 *)
+Definition ex_sl_es : list CfiSpec.entry :=
+  [ CfiSpec.ECie (CfiSpec.mkcie_rec false 1 true [CfiSpec.AR 27] 8 1 (-8) 16 []);
+    CfiSpec.EFde (CfiSpec.mkfde_rec false 0%nat 256 64 0 []
+                    (n2b 1 :: CfiSpec.enc_value 11 8 false 512 ++ [n2b 0])) ].
+Definition ex_sl_sec : list byte := CfiSpec.enc_section (sp_of ex_uw_cfg) ex_sl_es.
